@@ -60,12 +60,17 @@ def run(res, tier, seed):
     ncases = 700 if quick else 20000
     cases, metas = [], []
     for k in range(ncases):
-        if k % 5 == 4:
+        fam = os.environ.get("VERIF_C01_FAMILY")       # focused runs (development aid): every case from one family
+        if fam:
+            ss = getattr(xslgen, fam + "_stylesheet")(rng)
+        elif k % 5 == 4:
             ss = xslgen.scoping_stylesheet(rng)       # the scoping family (see tools/xslgen.py)
         elif k % 10 == 3:
             ss = xslgen.sorting_stylesheet(rng)       # the sorting family
         elif k % 10 == 7:
             ss = xslgen.imports_stylesheet(rng)       # the imports family (import tree, apply-imports, named template overriding)
+        elif k % 10 == 1:
+            ss = xslgen.multidoc_stylesheet(rng)      # the multi-document family (document(), keys / id / numbering / sorting in loaded documents)
         else:
             ss = xslgen.XslGen(rng).stylesheet()
         d = rng.randrange(len(docs))
@@ -73,8 +78,11 @@ def run(res, tier, seed):
         for fname, text in xslgen.render_modules(ss).items():
             open(os.path.join(cdir, fname), "w").write(text)
         open(os.path.join(cdir, "in.xml"), "w").write(c02.doc_xml(docs[d]))
+        aux = [rng.randrange(len(docs)) for _ in range(ss.get("ndocs", 0))]
+        for j, a in enumerate(aux):
+            open(os.path.join(cdir, "d%d.xml" % (j + 2)), "w").write(c02.doc_xml(docs[a]))
         cases.append({"id": k, "dir": cdir, "trace": "none", "select": False})
-        metas.append((ss, d))
+        metas.append((ss, d, aux))
     exe = vlib.build_harness("xslt")
     nsh = vlib.NCPU
     procs = []
@@ -93,7 +101,7 @@ def run(res, tier, seed):
         dones = {ev["id"]: ev for ev in vlib.read_ndjson(rp) if ev["e"] == "Done"}
         died = False
         for c in ch:
-            ss, d = metas[c["id"]]
+            ss, d, aux = metas[c["id"]]
             dn = dones.get(c["id"])
             sample = {"xsl": all_xsl(c["dir"]), "xml": c02.doc_xml(docs[d])}
             if dn is None:
@@ -101,7 +109,7 @@ def run(res, tier, seed):
                     res.violation("transformation process died or hung (rc=%s): %s" % (p.returncode, (err or b"").decode()[-300:]), [sample])
                     died = True
                 continue
-            events.append({"e": "Transform", "doc": d + 1, "ss": xslgen.spec_stylesheet(ss), "status": dn["status"], "msg": dn["msg"][:300], "tree": canon(dn["tree"]), "sample": c["id"]})
+            events.append({"e": "Transform", "doc": d + 1, "aux": [a + 1 for a in aux], "ss": xslgen.spec_stylesheet(ss), "status": dn["status"], "msg": dn["msg"][:300], "tree": canon(dn["tree"]), "sample": c["id"]})
     res.cov["evaluations"] = len(events)
     dpath = os.path.join(wd, "docs.ndjson")
     vlib.write_ndjson(dpath, flats)
@@ -116,7 +124,7 @@ def run(res, tier, seed):
                 res.known(known[k])
         else:
             res.violation("status %s %s | %s" % (ev["status"], ev["msg"][:100], rj["msg"][:300]),
-                          [dict(ev, xsl=all_xsl(cdir), xml=open(os.path.join(cdir, "in.xml")).read(), flatdoc=flats[ev["doc"] - 1])])
+                          [dict(ev, xsl=all_xsl(cdir), xml=open(os.path.join(cdir, "in.xml")).read(), flatdoc=flats[ev["doc"] - 1], flataux=[flats[a - 1] for a in ev["aux"]])])
     res.notes["dropped_unjudged"] = st["dropped"]
     rejected = {rj["line"] for rj in rejects}
     res.cov["traces_validated_against_impl"] = len(events) - len(rejects) - st["dropped"]
@@ -132,12 +140,13 @@ def run(res, tier, seed):
                        "to depth 3 over the instruction kinds listed in instruction_kinds_generated, expressions from the typed XPath generator with the variables in scope; documents "
                        "from the XPath corpus; every 5th stylesheet from the scoping family (call-template / apply-templates with and without with-param under if/choose/for-each/"
                        "literal elements, same-named caller variables), every 10th from the sorting family (1-3 tie-prone sort keys, mixed order and data-type, position()/last() printed), every 10th from the imports family "
-                       "(import tree of four modules, rules with overlapping patterns/modes/priorities, xsl:apply-imports, a named template defined in several modules); non-trivial = at least 5 different instruction kinds in the stylesheet and a non-trivial result tree; distinct by (stylesheet, document). "
+                       "(import tree of four modules, rules with overlapping patterns/modes/priorities, xsl:apply-imports, a named template defined in several modules, xsl:include'd runs), every 10th from the multi-document family (document(): identity of loaded "
+                       "documents, keys / id() / xsl:number / sorting / template application inside them, strip-space applied to them); non-trivial = at least 5 different instruction kinds in the stylesheet and a non-trivial result tree; distinct by (stylesheet, document). "
                        "Cases whose definition value involves a number outside the model or a dynamic error are not judged (counted in dropped_unjudged)")
     for ev in events[:2]:
         cdir = cases[ev["sample"]]["dir"]
         res.sample({"xsl": all_xsl(cdir), "doc": ev["doc"], "tree": ev["tree"]})
-    res.assumptions += ["XSLTSem has no namespaces in result names (C14), no xsl:number value= (C17), no document(), format-number, output escaping control; global variables, keys and space declarations only in the principal module",
+    res.assumptions += ["XSLTSem has no namespaces in result names (C14), no xsl:number value= (C17), document() with one string argument only, no format-number, output escaping control; global variables, keys and space declarations only in the principal module",
                         "the result tree is compared as a canonical tree: adjacent text merged, attributes as a set, xmlns attributes ignored"]
 
 
@@ -149,9 +158,11 @@ def replay(path):
     events = vlib.read_ndjson(path)
     wd = vlib.workdir("c01replay")
     flat = events[0].pop("flatdoc")
-    n = events[0]["doc"]
+    flataux = events[0].pop("flataux", [])
+    events[0]["aux"] = [2 + j for j in range(len(flataux))]
+    events[0]["doc"] = 1
     dpath = os.path.join(wd, "docs.ndjson")
-    vlib.write_ndjson(dpath, [flat] * n)
+    vlib.write_ndjson(dpath, [flat] + flataux)
     rejects, _ = vlib.tlc_validate_sharded(TRACE, events, shards=1, tag="c01replay", env={"DOCS": dpath}, stateless=True)
     for r in rejects:
         print("REJECTED: %s" % r["msg"])
